@@ -261,8 +261,11 @@ class Terms(object):
 
     def _assume(self, hyps):
         hyps = [(t, bool(p)) for t, p in hyps]
-        for _ in range(3):
-            dead = set()
+        for _ in range(4):
+            # (an edge found dead stays dead: the hypotheses do not change,
+            # and its condition can no longer be evaluated once its node is
+            # unreachable)
+            dead = set(self.dead)
             self.hyps = hyps
             for n in self.cfg.nodes:
                 if n.kind != "assume":
@@ -285,6 +288,16 @@ class Terms(object):
         """Truth value of condition term ``t`` under the hypotheses."""
         if t[0] == "const":
             return bool(t[1])
+        if t[0] == "cmp" and t[1] in ("Is", "Eq") and \
+                t[2][0] == "const" and t[3][0] == "const":
+            # two constants: None is None, 0 == 1 ... (Is only where identity
+            # is equality: None, booleans, small ints of the same type)
+            a, b = t[2][1], t[3][1]
+            if t[1] == "Eq":
+                return a == b
+            if a is None or b is None or isinstance(a, bool) or \
+                    isinstance(b, bool):
+                return a is b
         for h, v in self.hyps:
             if h == t:
                 return v
@@ -882,8 +895,9 @@ class Terms(object):
                     it = self.term(p_.iter, self.cfg.loop_head[id(p_)])
                     inner = it[2] if it[0] == "new" else it
                     if inner[0] in ("listcomp", "setcomp", "genexp") and \
-                            len(inner[2]) == 1 and \
-                            inner[1] == self._elem(inner[2][0][0]):
+                            len(inner[2]) == 1:
+                        # (the loop variable is f(<element of the source>):
+                        # the filter holds for that source element)
                         for c_ in inner[2][0][1]:
                             for x in split_cond(c_, True):
                                 if x not in out:
@@ -1360,6 +1374,21 @@ class Terms(object):
         return ("binop", op, a, b)
 
     def _cmp(self, opn, a, b):
+        # x in (c1, .., cn) over a short display of constants is
+        # x == c1 or .. or x == cn  (x is None for None)
+        disp = b[2] if b[0] == "new" else b
+        if opn in ("In", "NotIn") and disp[0] in ("tuple", "list", "set") \
+                and 1 <= len(disp) - 1 <= 4 and all(
+                    x[0] == "const" and not isinstance(x[1], float)
+                    for x in disp[1:]):
+            parts = [is_none(a) if x[1] is None else mk_cmp("Eq", a, x)
+                     for x in disp[1:]]
+            t = parts[0] if len(parts) == 1 else ("or",) + tuple(parts)
+            if opn == "In":
+                return t
+            if t[0] == "or":
+                return ("and",) + tuple(("not", x) for x in t[1:])
+            return ("not", t)
         return mk_cmp(opn, a, b)
 
     # -- calls -----------------------------------------------------------------
@@ -1374,6 +1403,17 @@ class Terms(object):
             kws.append((k.arg or "**", T(k.value, node, env)))
         kws = tuple(sorted(kws, key=_key))
         args = tuple(args)
+        # b"".join((a, b, c)) over a display of two or more parts is
+        # a + b + c
+        if isinstance(f, ast.Attribute) and f.attr == "join" and \
+                isinstance(f.value, ast.Constant) and \
+                f.value.value in (b"", "") and len(args) == 1 and not kws:
+            disp = args[0][2] if args[0][0] == "new" else args[0]
+            if disp[0] in ("tuple", "list") and len(disp) >= 3:
+                out = disp[1]
+                for x in disp[2:]:
+                    out = self._binop("Add", out, x)
+                return out
         # math.pow(2.0, n) is 2.0 ** n (a float base: the same C pow)
         if isinstance(f, ast.Attribute) and f.attr == "pow" and \
                 chain(f.value) == "math" and len(args) == 2 and not kws and \
